@@ -455,7 +455,7 @@ pub fn gen_table(rng: &mut Rng, name: &str, others: &[TableDef], profile: Profil
         }
     }
     // check constraint
-    if rng.chance(1, 8) {
+    if rng.chance(1, 5) {
         let cn = t.columns[0].name.clone();
         t.constraints.push(TableConstraint::Check {
             name: rng.pick(&["chk_pos", "ck1"]).to_string(),
@@ -538,7 +538,7 @@ pub fn edit_models(rng: &mut Rng, m: &mut Vec<TableDef>, profile: Profile) -> &'
         }
         return "big_step";
     }
-    match rng.below(20) {
+    match rng.below(23) {
         0 => {
             // add table
             let mut pool: Vec<&str> = TABLE_POOL.to_vec();
@@ -832,6 +832,57 @@ pub fn edit_models(rng: &mut Rng, m: &mut Vec<TableDef>, profile: Profile) -> &'
                 add_fk(rng, t, &cb, &ta.name, &pa[0]);
             }
             "make_fk_cycle"
+        }
+        20 | 21 => {
+            // two (or more) string-enum columns of ONE table that each lose the label their default names, in one step
+            // (the planner must put each ModifyColumnDefault before the ModifyColumnType of the same column)
+            let t = &mut m[ti];
+            let is_label_default = |c: &ColumnDef| -> Option<String> {
+                let ColumnType::Complex(ComplexColumnType::Enum { values: EnumValues::String(l), .. }) = &c.r#type else { return None };
+                let Some(DefaultValue::String(d)) = &c.default else { return None };
+                let bare = d.trim().trim_matches('\'').to_string();
+                if l.len() >= 2 && l.contains(&bare) { Some(bare) } else { None }
+            };
+            let n = t.columns.iter().filter(|c| is_label_default(c).is_some()).count();
+            if n >= 2 {
+                for c in t.columns.iter_mut() {
+                    if let Some(bare) = is_label_default(c) {
+                        if let ColumnType::Complex(ComplexColumnType::Enum { values: EnumValues::String(l), .. }) = &mut c.r#type {
+                            l.retain(|x| *x != bare);
+                            c.default = Some(DefaultValue::String(format!("'{}'", l[0])));
+                        }
+                    }
+                }
+                return "enum_drop_default_labels";
+            }
+            for (cn, en, labels) in [("phase", "phase", ["draft", "live", "gone"]), ("stage", "stage", ["x", "y", "z"])] {
+                if !t.columns.iter().any(|c| c.name == cn) {
+                    let mut c = col(cn, ColumnType::Complex(ComplexColumnType::Enum { name: en.into(), values: EnumValues::String(labels.iter().map(|s| s.to_string()).collect()) }), true);
+                    c.default = Some(DefaultValue::String(format!("'{}'", labels[rng.below(2)])));
+                    t.columns.push(c);
+                }
+            }
+            "enum_add_defaulted_pair"
+        }
+        22 => {
+            // remove a table-level CHECK and delete an otherwise unconstrained column of the same table in one step
+            for t in m.iter_mut() {
+                let Some(ki) = t.constraints.iter().position(|c| matches!(c, TableConstraint::Check { .. })) else { continue };
+                let TableConstraint::Check { expr, .. } = t.constraints[ki].clone() else { continue };
+                let norm = t.normalize().ok();
+                let constrained: Vec<String> = norm.map(|n| n.constraints.iter().flat_map(|c| match c {
+                    TableConstraint::PrimaryKey { columns, .. } | TableConstraint::Unique { columns, .. } | TableConstraint::Index { columns, .. } | TableConstraint::ForeignKey { columns, .. } => columns.clone(),
+                    TableConstraint::Check { .. } => vec![],
+                }).collect()).unwrap_or_default();
+                if let Some(ci) = t.columns.iter().position(|c| !constrained.contains(&c.name) && !expr.contains(&c.name)) {
+                    if t.columns.len() > 2 {
+                        t.columns.remove(ci);
+                        t.constraints.remove(ki);
+                        return "remove_check_and_column";
+                    }
+                }
+            }
+            "noop"
         }
         14 => {
             // add FK to another table
@@ -1146,6 +1197,20 @@ pub fn respell_table(rng: &mut Rng, t: &TableDef) -> TableDef {
     // 6. constraint order
     if rng.chance(1, 2) {
         rng.shuffle(&mut t.constraints);
+    }
+    // 7. an absent inline flag <-> the explicit `false` (valid, unusual): no primary key / unique / index either way
+    for c in t.columns.iter_mut() {
+        if c.index.is_none() && rng.chance(1, 3) {
+            c.index = Some(StrOrBoolOrArray::Bool(false));
+        } else if matches!(c.index, Some(StrOrBoolOrArray::Bool(false))) && rng.chance(1, 2) {
+            c.index = None;
+        }
+        if c.unique.is_none() && rng.chance(1, 3) {
+            c.unique = Some(StrOrBoolOrArray::Bool(false));
+        }
+        if c.primary_key.is_none() && rng.chance(1, 4) {
+            c.primary_key = Some(PrimaryKeySyntax::Bool(false));
+        }
     }
     t
 }
